@@ -57,14 +57,17 @@ def vfracSx (p : List Int × Nat) : Sx := .list (p.1.map fun n => fracSx (n, p.2
 /-- the eight Scalar reductions; `none` = unknown name -/
 def runRed (name : String) (a : Arr (Cell Int)) (rep : Rep) (axis : Axis) (minval maxval : Int) :
     Option (Except Err (Arr (Out Sx))) :=
+  -- float data are recognisable by the size of the +inf code (integer dtypes stop at 2^64)
+  let isFloat := decide (maxval > 2 ^ 100)
+  let sat := fun (x : Int) => Sx.ofInt (ieeeSat isFloat maxval x)
   match name with
-  | "sum" => some (mapRes Sx.ofInt (sumCode 1 a axis))
-  | "mean" => some (mapRes fracSx (meanCode 1 a axis))
+  | "sum" => some (mapRes sat (sumCode 1 a axis))
+  | "mean" => some (mapRes (fun p => fracSx (ieeeSatFrac isFloat maxval p)) (meanCode 1 a axis))
   | "max" => some (mapRes Sx.ofInt (maxCode minval 1 a axis))
   | "min" => some (mapRes Sx.ofInt (minCode maxval 1 a axis))
   | "argmax" => some (mapRes Sx.ofNat (argmaxCode minval a axis))
   | "argmin" => some (mapRes Sx.ofNat (argminCode maxval a axis))
-  | "median" => some (mapRes Sx.ofInt (medianCode maxval 2 a axis))
+  | "median" => some (mapRes sat (medianCode maxval 2 a axis))
   | "sort" => some (mapRes Sx.ofInt (sortCode maxval rep a axis))
   | _ => none
 
